@@ -1100,6 +1100,59 @@ func (b *boundsAnalysis) assign(lhs, rhs ast.Expr, tok token.Token, facts factSe
 		return
 	}
 	if isIntegerT(lt) {
+		// x = min(a, b) / max(a, b): x is bounded by both operands on one side, and by
+		// anything that bounds both operands on the other
+		if call, isCall := ast.Unparen(rhs).(*ast.CallExpr); isCall && len(call.Args) == 2 && (p.Builtin(call) == "min" || p.Builtin(call) == "max") {
+			a, ok1 := b.linearise(call.Args[0])
+			c2, ok2 := b.linearise(call.Args[1])
+			if ok1 && ok2 && !a.mentions(lk) && !c2.mentions(lk) {
+				isMin := p.Builtin(call) == "min"
+				// candidate common bounds: 0 and the single terms of the operands
+				cands := []lin{newLin()}
+				for _, o := range []lin{a, c2} {
+					ts := make([]string, 0, len(o.co))
+					for t := range o.co {
+						ts = append(ts, t)
+					}
+					sort.Strings(ts)
+					for _, t := range ts {
+						l := newLin()
+						l.co[t] = 1
+						cands = append(cands, l)
+					}
+				}
+				var derived []lin
+				for _, t := range cands {
+					var g1, g2 lin
+					if isMin {
+						g1, g2 = a.add(t, -1), c2.add(t, -1) // a >= t and b >= t  =>  min >= t
+					} else {
+						g1, g2 = t.add(a, -1), t.add(c2, -1) // a <= t and b <= t  =>  max <= t
+					}
+					if b.prove(g1, facts) && b.prove(g2, facts) {
+						derived = append(derived, t)
+					}
+				}
+				b.killTerm(facts, lk)
+				b.noteTypeBounds(lk, lt)
+				x := newLin()
+				x.co[lk] = 1
+				if isMin {
+					facts.addGE(a.add(x, -1))  // a - x >= 0
+					facts.addGE(c2.add(x, -1)) // b - x >= 0
+					for _, t := range derived {
+						facts.addGE(x.add(t, -1)) // x - t >= 0
+					}
+				} else {
+					facts.addGE(x.add(a, -1))
+					facts.addGE(x.add(c2, -1))
+					for _, t := range derived {
+						facts.addGE(t.add(x, -1))
+					}
+				}
+				return
+			}
+		}
 		e, ok := b.linearise(rhs)
 		if ok && !e.mentions(lk) {
 			b.killTerm(facts, lk)
